@@ -268,20 +268,30 @@ def main(mod, argv=None):
     for f in os.listdir(replay_dir):
         if f.startswith(prop + '-'):
             os.remove(os.path.join(replay_dir, f))
-    reported = []
-    for n, v in enumerate(new[:10]):
+    reported, unreproduced = [], []
+    for v in new[:40]:
+        if len(reported) >= 10: break
         try:
             again = mod.replay(v['case'])
         except Exception:
             again = None
             harness_problem = 'replay raised: ' + traceback.format_exc()[-1500:]
         if again is not None and not any(a['key'] == v['key'] for a in again):
-            harness_problem = f'violation {v["key"]} did not reproduce on in-process re-execution (nondeterminism)'
+            unreproduced.append(v)      # depends on what the worker process did before (state kept across calls in the code under test)
             continue
-        p = os.path.join(replay_dir, f'{prop}-{n}.json')
+        p = os.path.join(replay_dir, f'{prop}-{len(reported)}.json')
         with open(p, 'w') as f:
             json.dump(v, f, indent=1, default=str)
         reported.append((v, p))
+    if unreproduced and not reported:
+        # no violation can be re-executed in isolation: they are reported all the same (the workers saw them), marked as history dependent
+        for v in unreproduced[:3]:
+            p = os.path.join(replay_dir, f'{prop}-{len(reported)}.json')
+            with open(p, 'w') as f:
+                json.dump(dict(v, reproduced_in_isolation=False), f, indent=1, default=str)
+            reported.append((v, p))
+        print(f'NOTE property={prop}: {len(unreproduced)} violation(s) seen by the workers do not re-occur when the case is executed alone in a fresh '
+              f'process state - they depend on earlier calls in the same process', file=sys.stderr)
 
     for e, v in kn.values():
         print(f'KNOWN-FINDING: property={prop} {e["what"]} (key {e["key"]})')
@@ -301,6 +311,7 @@ def main(mod, argv=None):
         'workers': NPROC,
         'known_findings_seen': sorted(k for k in kn),
         'new_violation_keys': [v['key'] for v in new[:50]],
+        'violations_not_reproduced_in_isolation': [v['key'] for v in unreproduced[:20]],
     }
     if not completed:
         cov['cap'] = f'wall-clock budget {args.budget}s hit; {agg.counters.get("tasks_done", 0)} of {len(tasks)} tasks fully covered'
